@@ -328,7 +328,7 @@ EXTRA2 = {
     "C32": " Also decided: a turning or diverging sub-tree is never merged (unconditional disjuncts of the keep-old predicate); the sub-tree U-turn loop index stays in its declared range; a NaN weight difference never yields a positive transition probability (abstract evaluation).",
     "C33": " Also decided: norm special cases are keyed by the exact order; unstack counts pieces along the split axis; where() chooses its broadcast target among all three operands; mean_and_std squares moduli; a specification known to be None is not itself flattened.",
     "C34": " Also decided: the analytic prior term uses the expansion point first and the inner product of the mean with itself.",
-    "C05": " Also decided: the grouping key of a leaf chain covers every operator walked from the input side (adapters included).",
+    "C05": " Also decided: the grouping key of a leaf chain covers every operator walked from the input side (adapters included). The domain refresh walks from every edited node to the root without early exit; in-place chain cuts happen once per chain object; a chain contributes only its innermost element as a node (the position the cut replaces).",
     "C29": " Also decided: per-interval factors of the integrated Wiener process stand under the time-axis expansion; optional numeric arguments are tested with `is None`; the scalar wrapper lifts drift and amplitude from their own values.",
     "C31": " Also decided: parent() divides by the level's own parent_splits; the flat grid reads the per-level shapes from the wrapped grid; the log-grid pixel volume is the difference of its edges.",
     "C35": " Also decided: every accepted constructor option is read and no computed local is dropped; explicit shifts around an FFT-order transform are oriented (fftshift out, ifftshift in); a single line of sight is not mapped over its coordinate axis.",
@@ -338,7 +338,7 @@ EXTRA2 = {
     "C14": " Also decided: the relative energy criterion is not evaluated as 0/0 between two vanishing energies.",
     "C22": " Also decided: every communicator argument is bound to the callee's `comm` parameter (resolved against the signature).",
     "C27": " Also decided: module globals that mirror arguments are assigned on every call; a dry run hands the position on; constructed refusals are raised.",
-    "C12": " An argument tested with callable() is not called untested."
+    "C12": " An argument tested with callable() is not called untested. The absolute eigenvalue cut-off of the matrix helpers is a constant not above float64 epsilon or scaled by the spectrum (never a bare machine epsilon).",
 }
 for _d in (EXTRA, EXTRA2):
     for _k, _v in _d.items():
